@@ -509,12 +509,14 @@ def same_term(a, b) -> bool:
 class Stats:
     FIELDS = ('paths', 'completed_paths', 'aborted_paths', 'queries', 'solver_s', 'unknown_feasibility',
               'obligations', 'discharged', 'refuted', 'inconclusive', 'vacuity_witnesses',
-              'canaries', 'canaries_refuted', 'forks', 'max_depth', 'cache_hits', 'trivial_claims')
+              'canaries', 'canaries_refuted', 'forks', 'max_depth', 'cache_hits', 'trivial_claims',
+              'cvc5_checked', 'cvc5_agree', 'cvc5_unknown', 'cvc5_disagree', 'cvc5_s')
 
     def __init__(self):
         for f in self.FIELDS:
             setattr(self, f, 0)
         self.solver_s = 0.0
+        self.cvc5_s = 0.0
 
     def as_dict(self):
         return {f: getattr(self, f) for f in self.FIELDS}
@@ -568,6 +570,8 @@ class SymEnv:
         self.sample_limit = 4
         self.notes = {}
         self.claim_ms = {}
+        self.cross_limit = 0        # > 0: re-decide the first N obligations of every name with cvc5 (second solver)
+        self._cross_count = {}
 
     # ---- path management -------------------------------------------------------------------
     def start_path(self, replay):
@@ -818,6 +822,8 @@ class SymEnv:
         r, s = self._check(z3.Not(t))
         ms = (time.perf_counter() - t0) * 1000
         self.claim_ms[name] = self.claim_ms.get(name, 0.0) + ms
+        if self.cross_limit and r != z3.unknown:
+            self._cross_check(name, z3.Not(t), str(r))
         if r == z3.unsat:
             self.stats.discharged += 1
             self._sample(name, t, 'discharged', ms)
@@ -847,6 +853,8 @@ class SymEnv:
         self.stats.queries += 1
         self.claim_ms[name] = self.claim_ms.get(name, 0.0) + ms
         verdict = {'unsat': 'discharged', 'sat': 'refuted'}.get(str(r), 'unknown')
+        if self.cross_limit and str(r) != 'unknown':
+            self._cross_check(name, z3.Not(term), str(r), assumptions=list(assumptions))
         if len(self.samples) < self.sample_limit + 2 and not any(x['obligation'] == name for x in self.samples):
             self.samples.append({'obligation': name, 'path_decisions': '(closed formula over all weighted paths)',
                                  'path_condition_size': len(assumptions), 'claim_smt': _short(term, 600),
@@ -860,6 +868,54 @@ class SymEnv:
         self.stats.inconclusive += 1
         self.inconclusive.append((name, _short(term)))
         return None, None
+
+    def _cross_check(self, name, negated, z3_verdict, assumptions=None):
+        """second solver: the same query (SMT-LIB2 dump) decided by cvc5; a disagreement is a harness error"""
+        base = name.split('[')[0].split('@')[0]
+        n = self._cross_count.get(base, 0)
+        if n >= self.cross_limit:
+            return
+        self._cross_count[base] = n + 1
+        s = z3.Solver()
+        for c in (self.pc if assumptions is None else assumptions):
+            s.add(c)
+        s.add(negated)
+        txt = s.to_smt2()
+        t0 = time.perf_counter()
+        verdict = 'unknown'
+        import os
+        import subprocess
+        import sys
+        import tempfile
+        fd, path = tempfile.mkstemp(suffix='.smt2', prefix='symx_')
+        try:
+            with os.fdopen(fd, 'w') as fh:
+                fh.write(txt)
+            driver = os.path.join(os.path.dirname(os.path.abspath(__file__)), 'cvc5_driver.py')
+            pr = subprocess.run([sys.executable, driver, path, '10000'], capture_output=True, text=True, timeout=30)
+            out = pr.stdout.strip().splitlines()
+            if pr.returncode == 0 and out and out[-1] in ('sat', 'unsat', 'unknown'):
+                verdict = out[-1]
+            elif pr.returncode != 0:
+                self.notes.setdefault('cvc5_errors', []).append(f"{name}: exit {pr.returncode}: {pr.stderr.strip()[-120:]}")
+        except subprocess.TimeoutExpired:
+            verdict = 'unknown'
+        except Exception as e:  # noqa: BLE001
+            self.notes.setdefault('cvc5_errors', []).append(f"{name}: {type(e).__name__}: {str(e)[:120]}")
+        finally:
+            try:
+                os.unlink(path)
+            except OSError:
+                pass
+        self.stats.cvc5_s += time.perf_counter() - t0
+        self.stats.cvc5_checked += 1
+        if verdict == 'unknown':
+            self.stats.cvc5_unknown += 1
+        elif verdict == z3_verdict:
+            self.stats.cvc5_agree += 1
+        else:
+            self.stats.cvc5_disagree += 1
+            self.inconclusive.append((name, f"solver disagreement: z3 {z3_verdict}, cvc5 {verdict}"))
 
     def canary(self, name, cond):
         """a deliberately wrong claim: must be refuted on at least one path (vacuity / oracle-strength guard)"""
